@@ -52,6 +52,8 @@ CONFIGS = {
     "tsan_noasm": _cfg("gcc", ["-O1", "-g"], STD, ["-fsanitize=thread"], ["-lpthread"], wrap=False),
     # plain build of the shim for valgrind (helgrind / memcheck): shipped flags
     "vg": _cfg("gcc", ["-O2", "-g"], STD + ["-DUSE_ASM_X86_64=1", "-DVALGRIND"], [], ["-lpthread"], wrap=False),
+    # VERIFY build without sanitizers, run under valgrind memcheck by C07: reads of uninitialised memory that steer a branch (ASan is blind to them)
+    "vgv": _cfg("gcc", ["-O1", "-g"], STD + ["-DUSE_ASM_X86_64=1", "-DVERIFY"], [], ["-lpthread"], wrap=False),
     # small-group configuration (EXHAUSTIVE_TEST_ORDER): standalone driver, tables recomputed at start
     "sg13": _cfg("gcc", ["-O1", "-g"], ["-DEXHAUSTIVE_TEST_ORDER=13", "-DVERIFY"], SAN, src="sgdriver.c", precomp=False, wrap=False),
     "sg199": _cfg("gcc", ["-O1", "-g"], ["-DEXHAUSTIVE_TEST_ORDER=199", "-DVERIFY"], SAN, src="sgdriver.c", precomp=False, wrap=False),
@@ -69,6 +71,10 @@ CONFIGS = {
     "ct_noasm": dict(_cfg("gcc", ["-O2", "-g", "-std=c90", "-fPIC"], STD + ["-DVALGRIND"], [], [], src="ctdriver.c", wrap=False), ct=True),
     "ct_clang": dict(_cfg("clang", ["-O2", "-gdwarf-4", "-std=c90", "-fPIC"], STD + ["-DUSE_ASM_X86_64=1", "-DVALGRIND"], [], [], src="ctdriver.c", wrap=False), ct=True),
 }
+
+# every supported precomputed window size (2..15): a light ecmult workload runs on each in the thorough tier of C05 (quick tiers see 2, 8, 15)
+for _w in range(2, 16):
+    CONFIGS["mx_win%d" % _w] = _cfg("gcc", ["-O1", "-g"], ["-DCOMB_BLOCKS=11", "-DCOMB_TEETH=6", "-DECMULT_WINDOW_SIZE=%d" % _w, "-DUSE_ASM_X86_64=1", "-DVERIFY"], SAN)
 
 def tree_files(repo=None):
     repo = repo or REPO
